@@ -223,6 +223,6 @@ func init() {
 		Shards: func(tier string) []mc.Shard {
 			return []mc.Shard{mc.ShardOf(datasetScenario(tier, false), 10), mc.ShardOf(datasetScenario(tier, true), 1)}
 		},
-		ShardBudget: budget(70*time.Second, 12*time.Minute),
+		ShardBudget: budget(240*time.Second, 12*time.Minute),
 	})
 }
